@@ -567,7 +567,10 @@ Proof.
   apply bad_of_matching. exact H.
 Qed.
 Lemma bad_of_outside : forall c, t_x0_outside c = true -> bad_coord c.
-Proof. intros c H. unfold t_x0_outside in H. apply orb_true_iff in H. unfold bad_coord. tauto. Qed.
+Proof.
+  intros c H. unfold t_x0_outside in H. apply orb_true_iff in H. destruct H as [H|H]; [apply orb_true_iff in H|];
+  unfold bad_coord; tauto.
+Qed.
 Lemma bad_of_too_close : forall c, t_too_close c = true -> bad_coord c.
 Proof. intros c H. unfold t_too_close, LBe, UBe in H. unfold bad_coord. tauto. Qed.
 Lemma bad_of_order : forall c, t_order_bad c = true -> bad_coord c.
@@ -588,13 +591,14 @@ Proof.
   intros c H1 H2 H3 H4 H5 H6 Hb.
   unfold t_nonfinite_pb in H1. apply orb_false_iff in H1. destruct H1 as [H1a H1b].
   apply negb_false_iff in H1a. apply negb_false_iff in H1b.
-  unfold t_matching in H2. unfold t_x0_outside in H3. apply orb_false_iff in H3. destruct H3 as [H3a H3b].
+  unfold t_matching in H2. unfold t_x0_outside in H3. apply orb_false_iff in H3. destruct H3 as [H3 H3c].
+  apply orb_false_iff in H3. destruct H3 as [H3a H3b].
   unfold t_too_close, LBe, UBe in H4.
   unfold t_order_bad in H5. apply negb_false_iff in H5.
   apply andb_true_iff in H5. destruct H5 as [H5 H5c]. apply andb_true_iff in H5. destruct H5 as [H5a H5b].
   unfold t_half in H6. apply negb_false_iff in H6. apply eqb_prop in H6.
   unfold bad_coord in Hb.
-  destruct Hb as [Hb|[Hb|[Hb|[Hb|[Hb|[Hb|[Hb|Hb]]]]]]]; try congruence.
+  destruct Hb as [Hb|[Hb|[Hb|[Hb|[Hb|[Hb|[Hb|[Hb|Hb]]]]]]]]; try congruence.
   apply Hb. repeat split; assumption.
 Qed.
 
@@ -768,20 +772,26 @@ Proof. intros [a| | |] [b| | |] H; cbn in H; try discriminate; split; reflexivit
 Lemma xsub_finite_intro : forall a b, xisfinite a = true -> xisfinite b = true -> xisfinite (xsub a b) = true.
 Proof. intros [a| | |] [b| | |] Ha Hb; try discriminate. reflexivity. Qed.
 
+Lemma finite_of_not_nan_inf : forall a, xisnan a = false -> xisinf a = false -> xisfinite a = true.
+Proof. intros [a| | |] H1 H2; try discriminate; reflexivity. Qed.
+
+Lemma outside_false_not_inf : forall c, t_x0_outside c = false -> xisinf (cx c) = false.
+Proof. intros c H. unfold t_x0_outside in H. apply orb_false_iff in H. destruct H as [_ H]. exact H. Qed.
+
 (* what a regular definition gives for each assembled coordinate *)
 Lemma regular_edge : forall d D,
   regular d -> dim_of d = Some D ->
-  forall i, (i < D)%nat ->
+  forall i, (i < D)%nat -> xisinf (cx (coord_at d i)) = false ->
     existsb on_edge (map (coord_at d) (seq 0 D)) = false \/ xisfinite (cx (coord_at d i)) = true.
 Proof.
-  intros d D [Hx _] Hdim i Hi. unfold x0_regular in Hx.
+  intros d D [Hx _] Hdim i Hi Hinf. unfold x0_regular in Hx.
   assert (AllNaN : (forall j, (j < D)%nat -> cx (coord_at d j) = XNaN) ->
                    existsb on_edge (map (coord_at d) (seq 0 D)) = false).
   { intro H. apply existsb_false_intro. intros c Hc. apply in_coords in Hc. destruct Hc as (j & Hj & ->).
     apply on_edge_nan. apply H. exact Hj. }
   unfold dim_of in Hdim. destruct (d_x0 d) as [x|] eqn:Ex.
   - inversion Hdim; subst D. destruct Hx as [Hf|Hn].
-    + right. cbn [cx coord_at]. unfold x0_at, at_. rewrite Ex.
+    + right. apply finite_of_not_nan_inf; [|exact Hinf]. cbn [cx coord_at]. unfold x0_at, at_. rewrite Ex.
       rewrite Forall_forall in Hf. apply Hf. apply nth_In. exact Hi.
     + left. apply AllNaN. intros j Hj. cbn [cx coord_at]. unfold x0_at, at_. rewrite Ex.
       rewrite Forall_forall in Hn. apply Hn. apply nth_In. exact Hj.
@@ -813,7 +823,8 @@ Proof.
       - exact (Hs c Hc).
       - exact (existsb_false_in _ _ T5 c Hc).
       - rewrite Ec. destruct Hreg as [_ Hr]. exact (Hr D i Hdim Hi).
-      - rewrite Hcs at 1. rewrite Ec. exact (regular_edge d D Hreg Hdim i Hi). }
+      - rewrite Hcs at 1. rewrite Ec. apply (regular_edge d D Hreg Hdim i Hi).
+        rewrite <- Ec. exact (outside_false_not_inf c (existsb_false_in _ _ T4 c Hc)). }
     rewrite T7 in C. destruct (existsb t_half (map (repaired (existsb on_edge cs)) cs)); discriminate.
 Qed.
 
@@ -825,23 +836,33 @@ Proof.
   - destruct (IH H) as (x & Hx & Hf). exists x. auto.
 Qed.
 
-Lemma regular_no_overflow : forall d, regular d -> construct d <> Crash COverflow.
+Lemma xmin_nan_r : forall a, xmin a XNaN = XNaN.
+Proof. intro a. unfold xmin. cbn [xisnan]. rewrite orb_true_r. reflexivity. Qed.
+
+(* np.random.uniform(plb, pub) never sees a non-finite range: the OverflowError is unreachable *)
+Theorem never_overflows : forall d, construct d <> Crash COverflow.
 Proof.
-  intros d Hreg H.
+  intros d H.
   destruct (construct_passed d _ H) as (cs & cs' & A & C & F); try (intros; discriminate).
-  destruct (assemble_coords d cs A) as (D & Hdim & HD0 & Hlen & Hcs).
   destruct (check_accept cs cs' C) as (T1 & T3 & T4 & T5 & T6 & Ecs' & T7 & T8).
   assert (Hs : forall c, In c cs -> sane c).
   { intros c Hc. apply sane_of_tests; [exact (existsb_false_in _ _ T1 c Hc)|exact (existsb_false_in _ _ T6 c Hc)]. }
   destruct (finish_cases cs') as [[_ F']|[(Ff & Fr & _)|(_ & _ & F')]]; try (rewrite F' in F; discriminate).
-  (* some coordinate of x0 is not finite, so (regular) none is a number and no expansion happened *)
+  (* a coordinate of x0 is not finite; it is not infinite, so it is NaN, and an expansion would have
+     put NaN into plb, which the second order test rejects: no expansion happened *)
   destruct (forallb_false_exists _ _ Ff) as (c' & Hc' & Hnf).
   rewrite Ecs' in Hc'. apply in_map_iff in Hc'. destruct Hc' as (c & <- & Hc).
-  pose proof Hc as Hci. rewrite Hcs in Hci. apply in_coords in Hci. destruct Hci as (i & Hi & Ec).
-  assert (Hedge : existsb on_edge cs = false).
-  { destruct (regular_edge d D Hreg Hdim i Hi) as [He|Hx]; [rewrite Hcs; exact He|].
-    exfalso. rewrite <- Ec in Hx. cbn [cx repaired] in Hnf.
+  cbn [cx repaired] in Hnf.
+  assert (Hnan : xisnan (cx c) = true).
+  { destruct (xisnan (cx c)) eqn:En; [reflexivity|exfalso].
+    pose proof (finite_of_not_nan_inf _ En (outside_false_not_inf c (existsb_false_in _ _ T4 c Hc))) as Hx.
     rewrite (clamp_finite c (Hs c Hc) Hx) in Hnf. discriminate. }
+  assert (Hedge : existsb on_edge cs = false).
+  { destruct (existsb on_edge cs) eqn:Ee; [exfalso|reflexivity].
+    assert (Hord : t_order_bad (repaired true c) = false).
+    { apply (existsb_false_in _ _ T7). rewrite Ecs'. apply in_map. exact Hc. }
+    unfold t_order_bad, repaired in Hord. cbn [cl cu cpl cpu] in Hord.
+    rewrite (clamp_nan c Hnan), xmin_nan_r in Hord. destruct (cl c); discriminate. }
   apply existsb_exists in Fr. destruct Fr as (c2' & Hc2' & Hr).
   rewrite Ecs', Hedge in Hc2'. apply in_map_iff in Hc2'. destruct Hc2' as (c2 & <- & Hc2).
   unfold t_range_nonfinite in Hr. cbn [repaired cpl cpu] in Hr.
@@ -867,7 +888,7 @@ Proof.
       * destruct (assemble_crash d c A) as [_ H]. exact H.
       * destruct (check_coords cs) as [r|cs'] eqn:C; [discriminate|].
         destruct (finish_cases cs') as [[_ F]|[(_ & _ & F)|(_ & _ & F)]]; rewrite F in E; discriminate.
-    + exact (regular_no_overflow d Hreg E).
+    + exact (never_overflows d E).
   - exists n. reflexivity.
 Qed.
 
@@ -1057,9 +1078,6 @@ Definition w_margin : defn :=
 Definition w_nan : defn :=
   mkDefn (Some [XNaN; fin 1 1]) (Some [fin 0 1; fin 0 1]) (Some [fin 1 1; fin 1 1]) None None.
 
-(* x0 = +inf in an unbounded coordinate with plausible bounds [0, 1] *)
-Definition w_inf : defn := mkDefn (Some [XPInf]) None None (Some [fin 0 1]) (Some [fin 1 1]).
-
 (* lb = x0 = realmin, ub = 2 realmin *)
 Definition w_denormal : defn :=
   mkDefn (Some [XFin realmin]) (Some [XFin realmin]) (Some [XFin (2 * realmin)]) None None.
@@ -1099,13 +1117,16 @@ Proof.
   - vm_compute. reflexivity.
 Qed.
 
-Theorem inf_x0_refuted :
-  exists d, nonempty d /\ ~ invalid d /\ construct d = Crash COverflow.
+(* an infinite starting coordinate is on the list and is rejected *)
+Theorem inf_x0_rejected : forall d D i,
+  nonempty d -> dim_of d = Some D -> (i < D)%nat -> xisinf (x0_at d i) = true ->
+  invalid d /\ exists r, construct d = Reject r.
 Proof.
-  exists w_inf. split; [|split].
-  - unfold nonempty. vm_compute. discriminate.
-  - valid_by_tests.
-  - vm_compute. reflexivity.
+  intros d D i Hne Hdim Hi Hinf.
+  assert (Hinv : invalid d).
+  { unfold invalid. rewrite Hdim. right. exists i. split; [exact Hi|].
+    unfold bad_coord. cbn [cx coord_at]. tauto. }
+  split; [exact Hinv|exact (invalid_rejected d Hne Hinv)].
 Qed.
 
 Theorem x0_on_bound_denormal_refuted :
